@@ -102,6 +102,17 @@ pub fn drive(tr: &mut Tracer, rng: &mut StdRng, thorough: bool) {
             tr.emit(json!({"op": "to_float", "form": "val", "a": dec(neg, d, d.len() as i64 - 1 - 308)}));
         }
     }
+    // scales far outside the f64 exponent range, up to the limits of the scale type ("an arbitrary decimal"): tiny values
+    // convert to zero, huge ones to the infinity of their sign; zeros stay zero
+    for sc in [2147483647i64, 2147483648, 2147483649, 3_000_000_000, 1_000_000_000_000_000, i64::MAX, i64::MAX - 1,
+               -2147483647, -2147483648, -2147483649, -3_000_000_000, -1_000_000_000_000_000, i64::MIN + 1, i64::MIN + 40,
+               400_000, -400_000, 1_000_000_000, -1_000_000_000] {
+        for (i, d) in ["1", "5", "17976931348623157", "0", "99999999999999999999999999999999999999999999"].iter().enumerate() {
+            for neg in [false, true] {
+                tr.emit(json!({"op": "to_float", "form": if (i + neg as usize) % 2 == 0 { "val" } else { "dref" }, "a": dec(neg, d, sc)}));
+            }
+        }
+    }
     for d in ["22250738585072014", "22250738585072013", "49406564584124654", "24703282292062327", "24703282292062328", "1", "5", "3"] {
         for neg in [false, true] {
             for adj in [-308i64, -323, -324, -325, -330, -400] {
